@@ -184,6 +184,31 @@ def r06c(model, ctx):
     for s in ast.walk(fu):
         if isinstance(s, ast.If) and "net not in self.netlist.connections" in unparse(s.test) and "net.is_late" in unparse(s.test):
             ok = any(isinstance(x, ast.Assign) and unparse(x.targets[0]) == "self.netlist.connections[net]" for x in s.body)
+    if not ok:
+        # by path, with locals propagated: every store into the connection table is reached only with `net.is_late` true and
+        # `net` not yet in the table (nested ifs, one `and`, or a guard clause `if not late or connected: continue`)
+        from ..engine.inline import propagate_locals as _pl
+        from ..engine.astutil import parent_map as _pm, dominating_conditions as _dc
+        fv = _pl(fu)
+        pm_ = _pm(fv)
+        stores = [x for x in ast.walk(fv) if isinstance(x, ast.Assign) and unparse(x.targets[0]) == "self.netlist.connections[net]"]
+        need(stores, "emit_undriven: the store into netlist.connections was not found")
+        ok = True
+        for st in stores:
+            facts = set()
+            for t, pol in _dc(pm_, st, fv):
+                tx = unparse(t)
+                if pol and tx in ("net.is_late", "net not in self.netlist.connections"):
+                    facts.add(tx)
+                if pol and tx in ("net.is_late and net not in self.netlist.connections", "net not in self.netlist.connections and net.is_late"):
+                    facts |= {"net.is_late", "net not in self.netlist.connections"}
+                if not pol and tx in ("not net.is_late or net in self.netlist.connections", "net in self.netlist.connections or not net.is_late"):
+                    facts |= {"net.is_late", "net not in self.netlist.connections"}
+                if not pol and tx == "net in self.netlist.connections":
+                    facts.add("net not in self.netlist.connections")
+                if not pol and tx == "not net.is_late":
+                    facts.add("net.is_late")
+            ok = ok and facts == {"net.is_late", "net not in self.netlist.connections"}
     ctx.check(ok, R, "NetlistEmitter.emit_undriven", "writes only nets that are late and not yet connected",
               "emit_undriven() may only connect late nets that have no driver yet", f"{IR}:{fu.lineno}")
     # emit_io: result reaches cells only through emit_io_use (except the declaration pre-pass)
